@@ -61,7 +61,8 @@ def applyLegal (c : Cfg) (s : St) (e : TEv) : St :=
     { s with calls := cbCalls c s.calls .onPing,
              trace := s.trace ++ [(t, .wrote Gen.opcodePong p)] ++ cbTrace c s.calls t .onPing [.bytes p] }
   | .pong p =>
-    { s with lastPong := t, calls := cbCalls c s.calls .onPong,
+    -- (no ping is outstanding when keepalive is off: `last_ping_tm = 0`, the pong is not timed)
+    { s with calls := cbCalls c s.calls .onPong,
              trace := s.trace ++ cbTrace c s.calls t .onPong [.bytes p] }
   | _ => s
 
@@ -202,7 +203,9 @@ theorem read_legal (c : Cfg) (hq : Quiet c) (s : St) (e : TEv) (rest : List TEv)
     rw [callback_quiet c hq]
     simp [asRead, St.emit, List.append_assoc]
   | pong p =>
-    simp only [handleEv]
+    have hlp : s.lastPing = 0 := hu.lp
+    have hg : Gen.appPongStampWhenOutstanding = true := by decide
+    simp only [handleEv, pongStamp, hlp, Nat.not_lt_zero, decide_false, Bool.not_false, Bool.and_true, hg, ↓reduceIte]
     rw [callback_quiet c hq]
     simp [asRead]
   | close b => simp [hev, isLegal] at hleg
